@@ -28,6 +28,10 @@ Streams
             after one H of the other level with the same Checker, both directions
   memo-key: the methods that store into memo tables are wrapped in this process; two fresh computations stored under the
             same key with different arguments and different values are a candidate
+  interp  : AST scan for reads of interpreter-global state (sys.*, os.environ) and import calls -> Generated/
+            InterpreterState.lean; obligation `interpreter_state_reads_registered` (an equality)
+  importstate: H imports a stdlib submodule at module level, P imports it lazily inside a function (dotted / as / from)
+            and uses it; P alone vs after H, and the reverse order, in fresh interpreters
   unify   : value.py unify_bounds_maps against the pure Lean `unifyBM`; its arguments must be unchanged afterwards
             and the result must not share a list with them
   memo    : Checker.make_type_object / ArgSpecCache.get_argspec / _get_generic_bases_cached driven with query
@@ -58,7 +62,7 @@ PROP = "C10"
 LEAN_PROP = "PyaModel.Props.C10"
 NAMESPACE = "Pya.C10"
 LEAN_TARGETS = ["PyaModel.Spec.CacheSpec", "PyaModel.Generated.SetSites", "PyaModel.Generated.CacheSites",
-                "PyaModel.Generated.CacheVariant", "PyaModel.Generated.CacheKeys"]
+                "PyaModel.Generated.CacheVariant", "PyaModel.Generated.CacheKeys", "PyaModel.Generated.InterpreterState"]
 CACHE_FILES = ["pyanalyze/checker.py", "pyanalyze/arg_spec.py", "pyanalyze/type_object.py", "pyanalyze/typeshed.py",
                "pyanalyze/reexport.py", "pyanalyze/suggested_type.py"]
 SCAN_FILES = [
@@ -708,6 +712,54 @@ def scan_memo_keys(repo, memo_attrs=None):
 
 
 
+def scan_interpreter_reads(repo):
+    """[(file, function, expression, kind)]: where pyanalyze reads or drives interpreter-global state: `sys.<attr>`,
+    `os.environ`, `__import__` / `importlib.import_module` calls, and calls of pyanalyze's own functions that import
+    (one level: a function whose body calls `__import__` / `import_module` is an importer)."""
+    trees = _pyanalyze_trees(repo)
+    importers = set()
+    for tree in trees.values():
+        for fn in [n for n in ast.walk(tree) if isinstance(n, (ast.FunctionDef, ast.AsyncFunctionDef))]:
+            for c in ast.walk(fn):
+                if isinstance(c, ast.Call):
+                    f = c.func
+                    n = f.id if isinstance(f, ast.Name) else f.attr if isinstance(f, ast.Attribute) else None
+                    if n in ("__import__", "import_module"):
+                        importers.add(fn.name)
+    out = []
+    for f, tree in trees.items():
+        parents = {}
+        for pn in ast.walk(tree):
+            for c in ast.iter_child_nodes(pn):
+                parents[c] = pn
+
+        def qual(n):
+            names = []
+            while n in parents:
+                n = parents[n]
+                if isinstance(n, (ast.FunctionDef, ast.AsyncFunctionDef, ast.ClassDef)):
+                    names.append(n.name)
+            return ".".join(reversed(names)) or "<module>"
+        for n in ast.walk(tree):
+            if isinstance(n, ast.Attribute) and isinstance(n.value, ast.Name) and n.value.id == "sys" and isinstance(n.ctx, ast.Load):
+                out.append((f, qual(n), "sys." + n.attr, "sysModules" if n.attr == "modules" else "sysPath" if n.attr in ("path", "meta_path", "path_hooks") else "sysOther"))
+            elif isinstance(n, ast.Attribute) and isinstance(n.value, ast.Name) and n.value.id == "os" and n.attr in ("environ", "getenv"):
+                out.append((f, qual(n), "os." + n.attr, "environ"))
+            elif isinstance(n, ast.Call):
+                fn = n.func
+                nm = fn.id if isinstance(fn, ast.Name) else fn.attr if isinstance(fn, ast.Attribute) else None
+                if nm in ("__import__", "import_module"):
+                    out.append((f, qual(n), ast.unparse(n)[:80], "importCall"))
+                elif nm in importers:
+                    out.append((f, qual(n), ast.unparse(n)[:80], "importerCall"))
+    res, seen = [], {}
+    for o in sorted(out):
+        k = seen.get(o[:3], 0)
+        seen[o[:3]] = k + 1
+        res.append(o if k == 0 else (o[0], o[1], o[2] + "#%d" % k, o[3]))
+    return res
+
+
 def _lean_str(s):
     return '"' + s.replace("\\", "\\\\").replace('"', '\\"') + '"'
 
@@ -762,6 +814,16 @@ def translate(ctx):
         + ",\n".join(rows) + "\n]\n\nend Pya.C10.Gen\n"
     )
     lean.write_if_changed(os.path.join(lean.LEAN, "PyaModel", "Generated", "CacheKeys.lean"), text)
+    text = (
+        "/-! Regenerated by harness/props/c10.py `translate` from the live pyanalyze; do not edit. -/\n"
+        "namespace Pya.C10.Gen\n\n"
+        "/-- (file, function, expression, kind) of every read of interpreter-global state (`sys.*`, `os.environ`) and of\n"
+        "every call that imports a module (`__import__`, `import_module`, pyanalyze's own importing functions). -/\n"
+        "def scannedInterpreterReads : List (String × String × String × String) := [\n"
+        + ",\n".join("  (%s, %s, %s, %s)" % tuple(_lean_str(x) for x in r) for r in scan_interpreter_reads(pya.REPO))
+        + "\n]\n\nend Pya.C10.Gen\n"
+    )
+    lean.write_if_changed(os.path.join(lean.LEAN, "PyaModel", "Generated", "InterpreterState.lean"), text)
     v = impl_variant()
     text = (
         "/-! Regenerated by harness/props/c10.py `translate` from the live source of\n"
@@ -1114,6 +1176,61 @@ def start_procstate(ctx):
                 for mode, h, share in (("alone", [], True), ("shared", hist, True), ("fresh", hist, False))}
         pairs.append((route, names[n], hist, prog, jobs))
     return pairs
+
+
+# stdlib submodules that neither pyanalyze nor this harness imports (checked in the job: `preloaded` is reported)
+LAZY_SUBMODULES = [("xml.dom.minidom", "Document"), ("email.mime.text", "MIMEText"), ("concurrent.futures.thread", "ThreadPoolExecutor"),
+                   ("xml.etree.ElementTree", "Element"), ("logging.handlers", "RotatingFileHandler"), ("http.cookies", "SimpleCookie"),
+                   ("wsgiref.util", "FileWrapper"), ("email.mime.base", "MIMEBase"), ("xml.sax.handler", "ContentHandler"),
+                   ("urllib.robotparser", "RobotFileParser"), ("multiprocessing.pool", "Pool"), ("html.parser", "HTMLParser"),
+                   ("dbm.dumb", "error"), ("sqlite3.dbapi2", "Connection")]
+
+
+def lazy_import_program(sub, attr, form, k):
+    """P: the submodule is imported inside a function body (not executed when the module is loaded) and then used."""
+    L = ["from typing_extensions import reveal_type", "def f%d() -> None:" % k]
+    if form == "dotted":
+        L += ["    import %s" % sub, "    reveal_type(%s.%s)" % (sub, attr)]
+    elif form == "as":
+        L += ["    import %s as m%d" % (sub, k), "    reveal_type(m%d.%s)" % (k, attr)]
+    else:
+        L += ["    from %s import %s" % (sub, attr), "    reveal_type(%s)" % attr]
+    return "\n".join(L) + "\n"
+
+
+def start_importstate(ctx):
+    """The interpreter's module table as history: H imports a stdlib submodule at module level, P imports it lazily inside
+    a function (dotted import without `as`, with the `as` / `from` forms as controls) and uses it; also the reverse
+    order (P's lazy import before H: H fresh vs H after P). Fresh interpreters, one Checker per job."""
+    rng = ctx.rng
+    ctx._c10_iruns = getattr(ctx, "_c10_iruns", 0) + 1
+    subs = rng.sample(LAZY_SUBMODULES, ctx.n(3, len(LAZY_SUBMODULES)))
+    jobs = []
+    for n, (sub, attr) in enumerate(subs):
+        form = "dotted" if n < max(1, len(subs) - 2) else ("as" if n % 2 else "from")
+        P = lazy_import_program(sub, attr, form, n)
+        H = "import %s\nX%d = %s.%s\n" % (sub, n, sub, attr)
+        tag = "imp%d-%d" % (ctx._c10_iruns, n)
+        jobs.append((sub, form, H, P, start_proc_job(ctx, {"history": [], "program": P, "share": True, "seed": n}, tag + "a"),
+                     start_proc_job(ctx, {"history": [H], "program": P, "share": True, "seed": n}, tag + "h"),
+                     start_proc_job(ctx, {"history": [P], "program": H, "share": True, "seed": n}, tag + "r"),
+                     start_proc_job(ctx, {"history": [], "program": H, "share": True, "seed": n}, tag + "b")))
+    return jobs
+
+
+def finish_importstate(ctx, jobs):
+    for sub, form, H, P, ja, jh, jr, jb in jobs:
+        ra, rh, rr, rb = (finish_proc_job(j)["rendering"] for j in (ja, jh, jr, jb))
+        ctx.count(2, **{"import_" + form: 2})
+        ctx.nontriv("import|%s|%s" % (sub, form))
+        ctx.corr("importstate", 2)
+        for hist, prog, fresh, after, what in ((H, P, ra, rh, "imported at module level by an earlier program"),
+                                               (P, H, rb, rr, "imported lazily inside a function of an earlier program")):
+            if fresh != after:
+                ctx.candidate({"kind": "process-history", "history": [hist], "program": prog, "share": True, "fresh": fresh, "other": after},
+                              "a program's diagnostics depend on whether the interpreter's sys.modules already holds %s (%s; `%s` form): "
+                              "%r alone / %r after" % (sub, what, form, [d[3][:110] for d in fresh], [d[3][:110] for d in after]),
+                              cls=None, conforms=True, stream="importstate")
 
 
 def finish_procstate(ctx, pairs):
@@ -2825,6 +2942,7 @@ def _run(ctx, with_model):
         w.load(ctx)
     watch_sites, kinds = scan_caches(pya.REPO), cache_kinds()
     proc_pairs = start_procstate(ctx)      # fresh interpreters, in the background
+    import_jobs = start_importstate(ctx)
     probe = MemoProbe(scan_memo_keys(pya.REPO))
     api_sites(ctx, B, post)
     api_unify(ctx, B, post)
@@ -2840,6 +2958,7 @@ def _run(ctx, with_model):
         pending = e2e(ctx, B, post, e2e_worlds, with_model, watch_sites, kinds)
     probe_candidates(ctx, probe)
     finish_procstate(ctx, proc_pairs)
+    finish_importstate(ctx, import_jobs)
     if with_model:
         B.run()
         for f in post:
